@@ -1,0 +1,69 @@
+//! Compiled only with `--cfg darling_verif`. Nothing in a normal build refers to this module.
+//!
+//! The map conversions track seen keys in a `HashSet` whose default hasher is randomly seeded per
+//! process. Under the flag that set is built with [`SeamBuildHasher`], whose mode and seed a
+//! simulator chooses per thread, so that a simulated run is a pure function of its scenario.
+
+use std::cell::Cell;
+use std::hash::{BuildHasher, Hasher};
+
+thread_local! {
+    static STATE: Cell<(u8, u64)> = Cell::new((0, 0));
+}
+
+/// Choose the hasher behaviour for conversions running on this thread.
+///
+/// Modes: 0 seeded FNV-1a, 1 constant (every key collides), 2 two low bits only,
+/// anything else byte-swapped FNV-1a.
+pub fn set_hasher(mode: u8, seed: u64) {
+    STATE.with(|s| s.set((mode, seed)));
+}
+
+#[derive(Clone, Copy, Debug)]
+pub struct SeamBuildHasher {
+    mode: u8,
+    seed: u64,
+}
+
+impl Default for SeamBuildHasher {
+    fn default() -> Self {
+        let (mode, seed) = STATE.with(|s| s.get());
+        SeamBuildHasher { mode, seed }
+    }
+}
+
+pub struct SeamHasher {
+    mode: u8,
+    seed: u64,
+    state: u64,
+}
+
+impl BuildHasher for SeamBuildHasher {
+    type Hasher = SeamHasher;
+
+    fn build_hasher(&self) -> SeamHasher {
+        SeamHasher {
+            mode: self.mode,
+            seed: self.seed,
+            state: 0xcbf2_9ce4_8422_2325 ^ self.seed,
+        }
+    }
+}
+
+impl Hasher for SeamHasher {
+    fn write(&mut self, bytes: &[u8]) {
+        for b in bytes {
+            self.state ^= u64::from(*b);
+            self.state = self.state.wrapping_mul(0x0000_0100_0000_01B3);
+        }
+    }
+
+    fn finish(&self) -> u64 {
+        match self.mode {
+            0 => self.state,
+            1 => self.seed,
+            2 => self.state & 3,
+            _ => self.state.swap_bytes(),
+        }
+    }
+}
